@@ -179,46 +179,96 @@ def _table_arith(ctx) -> None:
                            f"right name is absent (None) or equal', i.e. {want!r}")
 
 
+def _deep_calls(it, t, depth=0):
+    """callee names of every call inside t, looking through the objects (comprehensions) it is built from."""
+    from ..symx import subterms
+    out = set()
+    for x in subterms(t):
+        if x[0] == "call":
+            out.add(x[1][2] if x[1][0] == "attr" else (x[1][1] if x[1][0] == "name" else "?"))
+        elif x[0] == "obj" and depth < 4:
+            o = it.objs[x[1]]
+            for i in o.init:
+                out |= _deep_calls(it, i, depth + 1)
+            for e in it.events:
+                if e.kind == "elem" and e.term == x:
+                    out |= _deep_calls(it, e.value, depth + 1)
+                    for L in e.loops:
+                        if L not in o.loops and it.loops[L].iter is not None:
+                            out |= _deep_calls(it, it.loops[L].iter, depth + 1)
+    return out
+
+
 def _construction(ctx) -> None:
+    from ..symx import Interp as SInterp
+    from ..symx import show, subterms
     prog = ctx.prog
     f = prog.func("table.Table.__init__")
-    cfg = cfg_of(f)
+    it = SInterp(prog, f)
+    S = ("param", f.params[0])
+    und = ("attr", S, "_underlying")
     problems = []
-    saves = [s for s in f.body if isinstance(s, ast.Assign) and cshort(s.value).startswith("[_0._name for _0 in initial]")]
-    copies = [s for s in walk_stmts(f.body) if isinstance(s, ast.Assign) and ".copy()" in short(s.value) and short(s.targets[0]) == "initial"]
-    if not saves:
-        problems.append("source names are not saved ([vec._name for vec in initial])")
-    elif copies and cfg.can_reach(cfg.node_of(copies[0]), cfg.node_of(saves[0])):
-        problems.append("source names are saved after the columns were copied")
-    nm = saves[0].targets[0].id if saves else "?"
-    restore = [s for s in walk_stmts(f.body) if isinstance(s, ast.For) and short(s.iter) == f"enumerate({nm})"]
-    if not restore:
-        problems.append("saved names are not restored by position")
+    stores = [e for e in it.events if e.kind == "store" and e.term[0] == "attr" and e.term[2] == "_name" and e.loops]
+    if len(stores) != 1:
+        problems.append(f"saved names are not restored by position ({len(stores)} name stores in a loop)")
     else:
-        i, c = [e.id for e in restore[0].target.elts]
-        if not any(short(s) == f"self._underlying[{i}]._name = {c}" for s in walk_stmts(restore[0].body)):
-            problems.append(f"column {i} does not receive saved name {i}")
-    ctx.ob("e.construction", f, "init-names", not problems, "source names saved before copying, restored by position", f.node,
-           message="Table.__init__: " + "; ".join(problems))
+        e = stores[0]
+        L = e.loops[-1]
+        tgt, val = e.term[1], e.value
+        pos_ok = tgt in (("sub", und, ("idx", L)), ("elem", und, L))
+        if not pos_ok:
+            problems.append(f"the restored name goes to `{show(tgt, it)[:50]}`, not to the column at the same position")
+        names = None
+        if val[0] == "elem" and val[2] == L:
+            names = val[1]
+        elif val[0] == "sub" and val[2] == ("idx", L):
+            names = val[1]
+        if names is None:
+            problems.append(f"column i does not receive saved name i (`{show(val, it)[:50]}`)")
+        else:
+            # names = [vec._name for vec in <incoming columns>]  (possibly `... if initial else []`)
+            cands = [names] if names[0] == "obj" else [x for x in (names[2], names[3]) if x[0] == "obj"] if names[0] == "ifexp" else []
+            okn = False
+            for c in cands:
+                evs = [x for x in it.events if x.kind == "elem" and x.term == c]
+                if len(evs) == 1:
+                    lps = [l for l in evs[0].loops if l not in it.objs[c[1]].loops]
+                    if len(lps) == 1 and evs[0].conds[len(it.objs[c[1]].conds):] == () and it.loops[lps[0]].iter is not None \
+                            and evs[0].value == ("attr", ("elem", it.loops[lps[0]].iter, lps[0]), "_name"):
+                        src = it.loops[lps[0]].iter
+                        if "copy" in _deep_calls(it, src):
+                            problems.append("source names are saved after the columns were copied")
+                        elif not any(x == ("param", f.params[1]) for x in subterms(src)) and "items" not in _deep_calls(it, src):
+                            problems.append(f"names are saved from `{show(src, it)[:50]}`, not from the incoming columns")
+                        okn = True
+            if not okn:
+                problems.append("source names are not saved ([vec._name for vec in initial])")
+    ctx.ob("e.construction", f, "init-names", not problems, "source names saved before copying, restored by position",
+           stores[0].node if stores else f.node, message="Table.__init__: " + "; ".join(problems))
     g = prog.func("table.Table.__rshift__")
-    gcfg = cfg_of(g)
+    gi = SInterp(prog, g)
     problems = []
-    st = [n for n in gcfg.stmt_nodes() if isinstance(n.ast, ast.Assign) and short(n.ast.targets[0]).endswith("._name")]
+    st = [e for e in gi.events if e.kind == "store" and e.term[0] == "attr" and e.term[2] == "_name"]
     if len(st) != 1:
         problems.append(f"{len(st)} name stores in >>")
     else:
-        tgt = st[0].ast.targets[0].value
-        key = st[0].ast.value
-        lp = [s for s in walk_stmts(g.body) if isinstance(s, ast.For) and ".items()" in short(s.iter)]
-        kname = lp[0].target.elts[0].id if lp and isinstance(lp[0].target, ast.Tuple) else "?"
-        if short(key) != kname:
-            problems.append(f"the new column is named `{short(key)}`, not the dict key `{kname}`")
-        defs = reaching_defs(gcfg, tgt.id, st[0]) if isinstance(tgt, ast.Name) else [tgt]
-        if not all(_fresh_vector_expr(x) for x in defs):
-            problems.append(f"`{short(tgt)}` is not a fresh copy on every path ({[short(x, 30) if not isinstance(x, str) else x for x in defs]}): "
-                            f">> would rename the caller's own vector")
-    ctx.ob("e.construction", g, "rshift-dict", not problems, ">> {name: values}: fresh copy named with the dict key", g.node,
-           message="Table.__rshift__: " + "; ".join(problems))
+        e = st[0]
+        other = ("param", g.params[1])
+        if not (e.loops and e.value == ("key", other, e.loops[-1])):
+            problems.append(f"the new column is named `{show(e.value, gi)[:50]}`, not the dict key")
+
+        def leaves(t):
+            if t[0] == "ifexp":
+                return leaves(t[2]) + leaves(t[3])
+            if t[0] == "phi":
+                return [y for x in t[1] for y in leaves(x)]
+            return [t]
+        bad = [x for x in leaves(e.term[1]) if not (x[0] == "call" and ((x[1][0] == "attr" and x[1][2] == "copy") or x[1] == ("name", "Vector")))
+               and x[0] != "unbound"]
+        if bad:
+            problems.append(f"`{show(bad[0], gi)[:50]}` is not a fresh copy on every path: >> would rename the caller's own vector")
+    ctx.ob("e.construction", g, "rshift-dict", not problems, ">> {name: values}: fresh copy named with the dict key",
+           st[0].node if st else g.node, message="Table.__rshift__: " + "; ".join(problems))
 
 
 def _joins(ctx) -> None:
